@@ -5,4 +5,4 @@ THEOREMS = ['reachable_inv', 'store_read_back', 'read_back_forever', 'by_id_read
 
 
 def run():
-    run_store('C04', THEOREMS, """Focus: event sizes from 0 bytes to several map chunks (the debug build grows the map file every 2048 bytes), reopen in between; oracle: every offset ever returned and every retrievable id reads back the exact bytes that were submitted; offsets as the specification predicts (8-aligned, increasing, never reused). non-trivial = distinct history step whose battery was compared.""", {'reply', 'live', 'bytes'})
+    run_store('C04', THEOREMS, """Focus: event sizes from 0 bytes to several map chunks (the debug build grows the map file every 2048 bytes), reopen in between; oracle: every offset ever returned and every retrievable id reads back the exact bytes that were submitted; offsets as the specification predicts (8-aligned, increasing, never reused). non-trivial = distinct history step whose battery was compared.""", {'reply', 'live', 'bytes'}, relevant={'STO', 'OPN', 'GID', 'OFF', 'HAS'})
